@@ -509,7 +509,7 @@ func (x *Exec) broken(st *State, kind, name string, tags []string, msg string) {
 
 func (x *Exec) safety(st *State, n ast.Node, what, goal string) {
 	name := fmt.Sprintf("safe[%d]:%s", x.ordinal(n), what)
-	if x.spec != nil && x.spec.Assumed[fmt.Sprintf("%s[%d]", what, x.ordinal(n))] {
+	if x.spec != nil && (x.spec.Assumed[fmt.Sprintf("%s[%d]", what, x.ordinal(n))] || x.spec.Assumed[what+"[*]"]) {
 		st.assume(goal)
 		return
 	}
